@@ -48,7 +48,7 @@ def dir2(chk, quick, rnd):
         # every base form (one state per opcode row and operand form: MaxDev = 0) plus a sample of the one-deviation variants
         base = sorted(set(ia32space.gen(0, False, None, chk)['done']))
         rest = sorted(set(hexes) - set(base))
-        hexes = sorted(set(base) | set(rnd.sample(rest, min(len(rest), 20000))))
+        hexes = sorted(set(base) | set(ia32space.stratified(rest, rnd, 20000)))      # every (prefix set, map, ModRM mod/rm, SIB base) stratum
     lay = render_pass(chk, hexes)
     ids = sorted(lay)
     gas = asmlib.gnu_as([asm_text.render(lay[k]['intel']) for k in ids], 'intel')
